@@ -33,11 +33,12 @@ impl<const TOTAL_NUM_BITS: u32, const NUM_INDEX_BITS: u32>
     /// `pa.tick()` advances the phase accumulator by 1 tick, expected to be called at the sample rate
     pub fn tick(&mut self) {
         self.accumulator += self.increment;
-        self.accumulator &= self.rollover_mask;
 
-        if self.accumulator < self.last_accumulator {
+        if self.rollover_mask < self.accumulator {
             self.rolled_over = true;
         }
+
+        self.accumulator &= self.rollover_mask;
 
         self.last_accumulator = self.accumulator
     }
